@@ -1,2 +1,76 @@
-From Coq Require Import ZArith List Bool.
+(* C17 — non-vacuity witnesses: two runs of the real collators (recorded by harness/c17.py, KD_REPO at the repaired
+   tree) on which every premise of the theorems of Property.v holds and the model returns the observed output. *)
+From Coq Require Import ZArith List Bool Lia Permutation.
+Import ListNotations.
 From KD Require Import C17.Model C17.Spec.
+Open Scope Z_scope.
+
+(* KDDinoMaskCollator(mask_ratio=(0.25, 0.5), mask_prob=0.5, mask_size=(3, 4), num_views=2, min_num_patches=2),
+   batch of one sample, rng = default_rng(811171) *)
+Definition ex_dcfg : dcfg :=
+  {| dH := 3; dW := 4; dV := 2; dMinP := 2; dPn := 1; dPd := 2; dRn := 1; dRd := 2 |}.
+
+Definition ex_dtrace : list draw :=
+  [DUnif (1, 4) (1, 2) (8232475950278611, 18014398509481984);
+   DUnif (2, 1) (5, 1) (5371151176581793, 1125899906842624);
+   DUnif (-5422211472926497, 4503599627370496) (5422211472926497, 4503599627370496)
+         (-108647772462797, 4503599627370496);
+   DRound 2; DRound 2; DInt 0 2 1; DInt 0 3 1;
+   DUnif (1, 1) (2, 1) (4392189090328865, 2251799813685248);
+   DUnif (-5422211472926497, 4503599627370496) (5422211472926497, 4503599627370496)
+         (-42783347908769, 2251799813685248);
+   DRound 1; DRound 1; DInt 0 3 0; DInt 0 4 3;
+   DPerm [1%nat; 0%nat]].
+
+Definition ex_dout : list mask :=
+  [[[false; false; false; false]; [false; false; false; false]; [false; false; false; false]];
+   [[false; false; false; true]; [false; true; true; false]; [false; true; true; false]]].
+
+Lemma ex_dcfg_ok : dcfg_ok ex_dcfg.
+Proof. unfold dcfg_ok; simpl; lia. Qed.
+
+Lemma ex_dtrace_ok : Forall draw_ok ex_dtrace.
+Proof.
+  unfold ex_dtrace. repeat (apply Forall_cons; [unfold draw_ok, rat_le; simpl; try lia|]).
+  - apply perm_swap.
+  - apply Forall_nil.
+Qed.
+
+Lemma ex_dino_run : dino_collate ex_dcfg 1 ex_dtrace = Ok ex_dout.
+Proof. vm_compute. reflexivity. Qed.
+
+(* the run is not trivial: one non-empty mask (= the budget), 5 masked patches, cap 6 *)
+Lemma ex_dino_nontrivial : count_nonempty ex_dout = 1 /\ budget ex_dcfg 1 = 1 /\
+                           map popcount ex_dout = [0; 5] /\ cap ex_dcfg = 6.
+Proof. vm_compute. repeat split; reflexivity. Qed.
+
+(* KDIjepaMaskCollator(input_size=5, patch_size=1, encoder_mask_scale=0.7, predictor_mask_scale=0.15,
+   predictor_aspect_ratio=1.0, num_enc_masks=1, num_pred_masks=2, min_keep=2, tries=2), first call, batch of two,
+   rng = default_rng(916315): 2x2 predictor blocks, 4x4 encoder block, 16 - 2*4 > 2 *)
+Definition ex_jcfg : jcfg :=
+  {| jH := 5; jW := 5; jNEnc := 1%nat; jNPred := 2%nat; jMinKeep := 2; jTries := 2 |}.
+
+Definition ex_sizes : Z -> raw4 := fun _ => (2, 2, 4, 4).
+
+Definition ex_jtrace : list draw :=
+  [DSeed 0; DInt 0 3 1; DInt 0 3 2; DInt 0 3 0; DInt 0 3 0; DInt 0 1 0; DInt 0 1 0;
+   DInt 0 3 1; DInt 0 3 0; DInt 0 3 2; DInt 0 3 2; DInt 0 1 0; DInt 0 1 0].
+
+Definition ex_enc : list (list Z) := [[2; 3; 10; 11; 15; 16; 17; 18]; [0; 1; 2; 3; 7; 8; 15; 16]].
+Definition ex_pred : list (list Z) := [[7; 8; 12; 13]; [5; 6; 10; 11]; [0; 1; 5; 6]; [12; 13; 17; 18]].
+
+Lemma ex_jcfg_ok : jcfg_ok ex_jcfg.
+Proof. unfold jcfg_ok; simpl; lia. Qed.
+
+Lemma ex_sizes_ok : sizes_ok ex_sizes.
+Proof. intros s. simpl. lia. Qed.
+
+Lemma ex_jtrace_ok : Forall draw_ok ex_jtrace.
+Proof. unfold ex_jtrace. repeat (apply Forall_cons; [simpl; try lia; exact I|]). apply Forall_nil. Qed.
+
+Lemma ex_ijepa_run : exists o, ijepa_collate ex_jcfg ex_sizes (-1) 2 ex_jtrace = Ok o /\
+  o_enc o = ex_enc /\ o_pred o = ex_pred /\ o_psize o = (2, 2) /\ o_esize o = (4, 4) /\ o_ctr o = 0 /\
+  premise ex_jcfg (o_psize o) (o_esize o).
+Proof.
+  eexists. split; [vm_compute; reflexivity|]. simpl. repeat split.
+Qed.
